@@ -134,12 +134,14 @@ def run(ctx):
                 t = b.term(blk)
                 if t and t["k"] == "call":
                     c = Callee(t["f"])
-                    if c.target.endswith("template::tcp::relay") or c.target.endswith("template::tcp::accept_websocket_then_replay"):
-                        relays.append((c, t))
+                    k = _relay_kind(prog, c.target)
+                    if k is not None:
+                        relays.append((c, t, k))
             label = "ssl=%d,ws=%d" % combo
-            kinds = {last_seg(c.target) for (c, _) in relays}
-            exp_kind = "accept_websocket_then_replay" if cfg["ws"] else "relay"
+            kinds = {k for (_, _, k) in relays}
+            exp_kind = "websocket-accepting relay" if cfg["ws"] else "plain relay"
             ctx.ob("W1", b.defp, f"server:{label}:relay-kind", loc(b.sp), kinds == {exp_kind}, f"{label} spawns {sorted(kinds)}; expected {exp_kind}", ordinal=False)
+            relays = [(c, t) for (c, t, _) in relays]
             for (c, t) in relays:
                 ity = c.args[0].get("s", "") if c.args else ""
                 ok = ("TlsStream" in ity) == bool(cfg["ssl"])
@@ -266,6 +268,27 @@ def w5(ctx):
             parts = o.key.split("|")
             ctx.ob("W5", parts[1], f"{o.rule}:{parts[2]}", o.where, o.ok, o.detail)
     ctx.floor("W5", "need-more re-entrancy obligations", 10, n)
+
+
+def _relay_kind(prog, target):
+    """role of a server function called from the TCP listener: a relay is a function whose (awaited) code reaches the first-item handler;
+    it is the WebSocket-accepting one iff it performs the server-side WebSocket accept on the way"""
+    _RK = prog.__dict__.setdefault("_relay_kind_cache", {})
+    if target in _RK:
+        return _RK[target]
+    from .common import first_item_handlers
+    kind = None
+    tb = prog.body(target)
+    if tb is not None and tb.defp.startswith("octo_squirrel_server"):
+        _, _, handlers = first_item_handlers(prog)
+        hroots = {fb.root for (fb, _) in handlers}
+        for fb0 in prog.family(tb.root):
+            fb = prog.flat(fb0.defp)
+            if any(prog.body(o).root in hroots for o in set(fb.origin)) and tb.root not in hroots:
+                ws = any("ServerBuilder" in (c.self_s or c.target) and c.method == "accept" for (_, c, _) in fb.calls())
+                kind = "websocket-accepting relay" if ws else (kind or "plain relay")
+    _RK[target] = kind
+    return kind
 
 
 def _async_ret_type(prog, target):
